@@ -145,6 +145,8 @@ def check_case(ctx, tr, case):
         ctx.count('calls_with_a_binding_sift_threshold')
     flip = ek['noise_mode'] == 'flip'
     nens, lvl = ek['nensembles'], ek['ensemble_noise']
+    if np.asarray(x).dtype.kind in 'iu' and lvl != 0:
+        ctx.count('noisy_ensembles_of_integer_recordings')
     ctx.case(digest(x, kw, ek, cap, case['rng_seed'], case['kind']), lvl != 0 and nens >= 2)
     state = np.random.get_state()
     np.random.seed(case['rng_seed'])
@@ -386,7 +388,8 @@ def finalize(agg, tier):
     if c.get('no_member_events', 0) > 0.1 * max(agg['evaluations'], 1):
         r.append('%d calls produced no member events (is _sift_with_noise still the member routine?)' % c.get('no_member_events', 0))
     for k, need in [('layers_with_distinct_noise', 50), ('mean_columns_checked', 200), ('zero_noise_cases', 10),
-                    ('calls:ens', 50), ('calls:cens', 30), ('mode:flip', 30), ('mode:single', 30)]:
+                    ('calls:ens', 50), ('calls:cens', 30), ('mode:flip', 30), ('mode:single', 30),
+                    ('noisy_ensembles_of_integer_recordings', 5)]:
         if c.get(k, 0) < need:
             r.append('%s: %d < %d' % (k, c.get(k, 0), need))
     if len(s.get('worker_counts_seen', ())) < 3:
